@@ -2070,6 +2070,11 @@ class Interp:
                     and result.kind in ("float", "unknown", "arr") and result.obj is None and result.items is None
                     and result.mapping is None and not frame.is_gen and not fn.name.startswith("__")):
                 result.sym = Poly.atom(f"call<{bound_self.obj.oid}.{fn.name}>")
+        if any(("lru_cache" in d_ or d_ in ("cache", "functools.cache") or "memoize" in d_) for d_ in fn.decorators) \
+                and result.kind in ("arr", "list", "unknown", "dict", "set") and not result.has_const():
+            # a memoising decorator hands the *same* object to every caller with equal arguments: the result aliases hidden
+            # module-level storage (MEMO-3: it must not reach a caller un-copied)
+            result = result.copy(al=result.al | {("memo", fn.name)})
         self.emit(st, "leave", node, callee=fn, role=role, value=result, noreturn=False,
                   selfobj=bound_self.obj if bound_self is not None else None)
         return result
